@@ -496,17 +496,22 @@ def run_dtypekw(ctx) -> RuleResult:
                         name = ctx.dotted(module, call.func) or ""
                         if not name.startswith(("numpy.", "numpoly.")):
                             continue
-                        dtext = U(_dealign(ctx, module, strip_tags(step.expand(dt))))
+                        if not (isinstance(dt, ast.Name) or U(dt).endswith(".dtype")):
+                            continue  # a literal / computed dtype: not one operand's
+                        dt_exp = strip_tags(step.expand(dt))
+                        pre = (id(call), U(dt_exp))
+                        if pre in seen:
+                            continue
+                        seen.add(pre)
+                        dtext = U(_dealign(ctx, module, dt_exp))
                         if not dtext.endswith(".dtype"):
                             continue
                         dparams = set(re.findall(r"π(\w+)", dtext))
+                        if len(dparams) != 1:
+                            continue
                         data = U(_dealign(ctx, module, strip_tags(step.expand(call.args[0]))))
                         # operands of the data: parameters that occur as operands of arithmetic on both sides
                         aparams = {p for p in re.findall(r"π(\w+)", data) if p in params}
-                        key = (id(call), dtext, data)
-                        if len(dparams) != 1 or key in seen:
-                            continue
-                        seen.add(key)
                         others = aparams - dparams
                         combined = bool(others) and bool(dparams & aparams) and any(
                             op in data for op in ("multiply(", "add(", "subtract(", " * ", " + ", " - ", "matmul(", "outer(", "inner("))
